@@ -167,6 +167,16 @@ func ShapeSpecs() []*Spec {
 			{Name: "l", Type: &Spec{Kind: KList, Item: leafStr(), Min: I64(1)}, EmptyDefault: true},
 			{Name: "f", Type: leafFloat()},
 		}},
+		// treat-empty-as-default properties that conflict rules name: an empty field is an absent property for every
+		// rule, in every operation. (Rules that REQUIRE such a property are left out: supplying its empty value
+		// explicitly is, by the documented identification, the same as leaving it out, and the property does not say
+		// which of the two the input then counts as.)
+		{Kind: KObject, ID: "SEmpty2", Struct: "SEmpty", Props: []Prop{
+			{Name: "s", Type: leafStr(), EmptyDefault: true},
+			{Name: "i", Type: leafInt(), EmptyDefault: true, Conflicts: []string{"s"}},
+			{Name: "l", Type: &Spec{Kind: KList, Item: leafStr()}, EmptyDefault: true, Conflicts: []string{"i"}},
+			{Name: "f", Type: leafFloat(), EmptyDefault: true},
+		}},
 	}
 	return out
 }
